@@ -93,7 +93,7 @@ def norm_content(c):
 
 def truth_content(spec, r):
     groups = {}
-    nb = len(spec['levels'][0]['boxes'])
+    nb = len(spec['levels'][min(spec['levels'])]['boxes'])
     for v in spec['restarts'][r].get('vars', spec['vars']):
         base = etgen.file_base(v, spec['grouped'], spec.get('custom_group'))
         xyz = '.xyz' if spec.get('xyz') else ''
@@ -144,6 +144,12 @@ def gen_cat_spec(seed):
         restarts.append(rs)
         start += max(length, 1) * bs
     spec['restarts'] = restarts
+    if nlev >= 2 and rng.random() < 0.3:
+        # 3D output restricted to the finer levels: no rl = 0 anywhere
+        del spec['levels'][0]
+        for rs in restarts:
+            rs['its'].pop(0, None)
+    spec['active_link'] = bool(rng.random() < 0.4)
     name = HOSTILE[int(rng.integers(len(HOSTILE)))]
     spec['simname'] = name
     spec['name_class'] = name
@@ -181,6 +187,10 @@ def run_catalogue(spec0, res):
                         with open(os.path.join(dirpath, fn)) as f:
                             keep[os.path.relpath(os.path.join(dirpath, fn), simdir)] = f.read()
             param = etgen.make_sim(root, s)
+            if spec.get('active_link'):
+                # SimFactory keeps a link to the running restart
+                last = f'output-{nshow - 1:04d}'
+                os.symlink(last, os.path.join(simdir, last + '-active'))
             for rel, txt in keep.items():
                 with open(os.path.join(simdir, rel), 'w') as f:
                     f.write(txt)
@@ -232,7 +242,7 @@ def run_catalogue(spec0, res):
             got = norm_cat(last)
             for r, entry in got.items():
                 want = truth_restart(spec, int(r))
-                if not spec['restarts'][int(r)]['its'].get(0):
+                if not spec['restarts'][int(r)]['its'].get(min(spec['levels'])):
                     continue
                 if entry != want:
                     dk = [k for k in set(entry) | set(want) if entry.get(k) != want.get(k)]
@@ -275,7 +285,9 @@ def run_catalogue(spec0, res):
                                  {"err": repr(e)[:300], "sequence": seq, "simname": spec['simname'],
                                   "dir": spec['dir_class']})
             return
-        res['observations'] += 1
+        res['observations'] += 2
+        if not check_overall(res, final, spec, shown, seq):
+            return
         if norm_cat(final) != norm_cat(fresh) or norm_overall(final) != norm_overall(fresh):
             common.add_violation(res, "incremental catalogue differs from one fresh scan",
                                  {"sequence": seq, "incremental": str(norm_cat(final))[:500],
@@ -288,6 +300,35 @@ def run_catalogue(spec0, res):
         res['nontrivial'].append(tags + [seq_cls])
     finally:
         shutil.rmtree(top, ignore_errors=True)
+
+
+def check_overall(res, cat, spec, nshow, seq):
+    """'overall' must describe, level by level, exactly the union of the
+    iterations of the catalogued restarts (segments are inclusive ranges)."""
+    ov = norm_overall(cat)
+    done = [r for r in cat if r != 'overall']
+    levels = sorted({rl for r in done for rl in spec['restarts'][int(r)]['its']
+                     if spec['restarts'][int(r)]['its'][rl]})
+    for rl in levels:
+        want = set()
+        for r in done:
+            want |= set(spec['restarts'][int(r)]['its'].get(rl, []))
+        key = f'rl = {rl}'
+        if key not in ov:
+            common.add_violation(res, "overall summary misses a refinement level",
+                                 {"level": rl, "overall": str(ov)[:300], "sequence": seq})
+            return False
+        got = set()
+        for seg in ov[key]:
+            got |= set(range(seg[0], seg[1] + 1, seg[2])) if len(seg) == 3 else {seg[0]}
+        # (segments of consecutive restarts with the same stride are merged by
+        #  design, so the summary may over-approximate; it must not lose data)
+        if not want <= got:
+            common.add_violation(res, "overall summary does not cover the iterations on disk",
+                                 {"level": rl, "segments": ov[key], "missing": sorted(want - got)[:5],
+                                  "sequence": seq})
+            return False
+    return True
 
 
 def classify_name(spec):
